@@ -31,6 +31,7 @@ let run_runcache ic =
                let c = if c = "-" then None else Some (nat_of_int (int_of_string c)) in
                st := apply_op_i !st (Edit (nat_of_int (int_of_string p), c)); "-"
              | _ -> failwith "bad edit")
+          | 'S' -> "-"     (* the spokfile grows by its last task: nothing the model's state knows about *)
           | 'X' -> st := apply_op_i !st RemoveCache; "-"
           | 'T' -> st := apply_op_i !st TearCache; "-"
           | ('R' | 'C') as k ->
